@@ -439,7 +439,12 @@ func GenBankParser(state *pars.State, result *pars.Result) error {
 		}
 	}
 
-	if n := gb.Origin.Len(); n != length && !(n == 0 && gb.Fields.Contig.Accession != "") {
+	n := gb.Origin.Len()
+	if n == 0 && gb.Fields.Contig.Accession != "" {
+		// A record without ORIGIN stands for the region of its CONTIG.
+		n = gb.Fields.Contig.Region.Len()
+	}
+	if n != length {
 		what := fmt.Sprintf("sequence length %d does not match the length %d declared in the LOCUS line", n, length)
 		return pars.NewError(what, state.Position())
 	}
